@@ -40,6 +40,11 @@ def run(db, rep, tier):
     r3_mirrors(db, rep)
     r4(db, rep)
     r4_min_frame(db, rep)
+    rep.rule("R5-zero-substitution", "UDP: whatever the parent layer, a computed checksum of 0 leaves the serialiser as 0xffff", 1)
+    r5_zero(db, rep)
+    rep.rule("R6-fresh-derived", "a field the serialiser derives is stored unconditionally with respect to its own old value: no store is guarded "
+                                 "by an ordering comparison that reads the field being stored (grow-only / shrink-only updates go stale)", 40)
+    r6_fresh(db, rep)
     rep.explanation = ("Ordering / protocol part of C05: for each checksum producer the zero-write-sum-fold-complement-store-patch sequence "
                        "and the pseudo-header arguments (R1); header fields are final when written (R2); tags come from the immediate "
                        "child and the IPv6 extension chain is linked for every index (R3); padding is zero after the payload (R4). "
@@ -594,3 +599,153 @@ def r4_min_frame(db, rep):
         rep.analysis_broken("EthernetII::trailer_size: no cell could be evaluated")
     else:
         rep.ok("R4-padding", key, facts.loc(t), "14 + payload + trailer_size() >= 60 in all %d cells" % n)
+
+
+# ---------------------------------------------------------------------------
+def r5_zero(db, rep):
+    """abstract interpretation of UDP::write_serialization over {ZERO, NZ, ?} for header_.check from the complement store to
+    the patch of the buffer"""
+    f = fn(db, "Tins::UDP::write_serialization")
+    if f is None:
+        rep.analysis_broken("UDP::write_serialization vanished")
+        return
+    key = "UDP::write_serialization:zero-substitution"
+
+    def is_ck(n):
+        n = strip(n)
+        if n["k"] == "MemberExpr" and n.get("isfield") and n.get("member") in CK_NAMES and n.get("c"):
+            b = strip(n["c"][0])
+            return b["k"] == "MemberExpr" and strip(b["c"][0])["k"] == "CXXThisExpr"
+        return False
+
+    def join(a, b):
+        return a if a == b else "?"
+
+    def refine(c, st):
+        c0 = strip(c)
+        if c0["k"] == "BinaryOperator" and c0.get("op") in ("==", "!="):
+            for a, b in ((c0["c"][0], c0["c"][1]), (c0["c"][1], c0["c"][0])):
+                if is_ck(a) and facts.cval(b) == 0:
+                    return ("ZERO", "NZ") if c0["op"] == "==" else ("NZ", "ZERO")
+        if c0["k"] == "UnaryOperator" and c0.get("op") == "!":
+            t, e = refine(c0["c"][0], st)
+            return e, t
+        if is_ck(c0):
+            return "NZ", "ZERO"
+        if c0["k"] == "BinaryOperator" and c0.get("op") == "&&":
+            ta, fa = refine(c0["c"][0], st)
+            tb, fb = refine(c0["c"][1], ta)
+            return tb, join(fa, fb)
+        if c0["k"] == "BinaryOperator" and c0.get("op") == "||":
+            ta, fa = refine(c0["c"][0], st)
+            tb, fb = refine(c0["c"][1], fa)
+            return join(ta, tb), fb
+        return st, st
+
+    def val(e, st):
+        v = facts.cval(e)
+        if v is not None:
+            return "ZERO" if int(v) & 0xffff == 0 else "NZ"
+        e0 = strip(e)
+        if is_ck(e0):
+            return st
+        if e0["k"] == "ConditionalOperator":
+            t, fl = refine(e0["c"][0], st)
+            return join(val(e0["c"][1], t), val(e0["c"][2], fl))
+        return "?"
+    res = {"patched": []}
+
+    def run(s_, st):
+        if s_ is None:
+            return st
+        k = s_["k"]
+        if k == "CompoundStmt":
+            for x in s_.get("c", []):
+                st = run(x, st)
+            return st
+        if k == "IfStmt":
+            real = [x for x in s_["c"] if x is not None]
+            if real[0]["k"] == "DeclStmt":
+                real = real[1:]
+            t, fl = refine(real[0], st)
+            a = run(real[1], t)
+            b = run(real[2], fl) if len(real) > 2 else fl
+            return join(a, b)
+        if k in ("WhileStmt", "ForStmt", "DoStmt"):
+            if any(x["k"] == "BinaryOperator" and x.get("op") == "=" and is_ck(x["c"][0]) for x in facts.walk(s_)):
+                return "?"
+            return st
+        for x in facts.walk(s_):
+            if x["k"] == "BinaryOperator" and x.get("op") == "=":
+                l = strip(x["c"][0])
+                if is_ck(l):
+                    st = val(x["c"][1], st)
+                elif l["k"] == "MemberExpr" and l.get("member") in CK_NAMES and l.get("arrow"):
+                    res["patched"].append((x, val(x["c"][1], st)))
+            if x["k"] == "CallExpr" and x.get("cname") == "memcpy" and any(is_ck(y) for y in facts.walk(x["c"][2])):
+                res["patched"].append((x, st))
+        return st
+    run(f["body"], "?")
+    if not res["patched"]:
+        rep.analysis_broken("UDP::write_serialization: the patch of the checksum into the buffer was not found")
+        return
+    bad = [(x, v) for x, v in res["patched"] if v != "NZ"]
+    if bad:
+        rep.violation("R5-zero-substitution", key, facts.loc(f, bad[0][0]),
+                      "the checksum patched into the datagram can still be 0 on some path (the 0 -> 0xffff substitution is missing or "
+                      "conditional on something else than the value): over IPv6 a zero UDP checksum is illegal and the datagram is dropped; "
+                      "over IPv4 it means 'not computed'")
+    else:
+        rep.ok("R5-zero-substitution", key, facts.loc(f, res["patched"][0][0]), "header_.check is non-zero on every path to the patch")
+
+
+def r6_fresh(db, rep):
+    from vlib import cond
+    n = 0
+    seen_k = {}
+    for fid, f in sorted(db.functions.items()):
+        if not (f["qual"].endswith("::write_serialization") or f["qual"].endswith("::prepare_for_serialize")) or not f.get("body"):
+            continue
+        if not f["file"].startswith("src/") and not f["file"].startswith("include/tins"):
+            continue
+        g = None
+        short = f["qual"].replace("Tins::", "")
+        for x in facts.fn_nodes(f):
+            field = None
+            if x["k"] == "CXXMemberCallExpr" and len(x["c"]) == 2 and strip_this(x):
+                cal = db.functions.get(x.get("callee"))
+                if cal is not None and cal.get("body") and len(cal["params"]) == 1 and \
+                        any(member_store(cal, y) for y in facts.fn_nodes(cal)):
+                    field = x.get("cname")
+            else:
+                ms = member_store(f, x)
+                if ms and x["k"] == "BinaryOperator":
+                    field = facts.expr_str(ms[2]).replace("this->", "").split(".")[-1]
+            if not field:
+                continue
+            n += 1
+            g = g or cfg.FnCFG(f)
+            pos = g.pos(x)
+            if pos is None:
+                continue
+            bad = None
+            for op, l, r in cond.guards_facts(g, pos):
+                if op not in ("<", ">", "<=", ">=") or r is None:
+                    continue
+                for side, other in ((l, r), (r, l)):
+                    reads = [y for y in facts.walk(side) if
+                             (y["k"] == "CXXMemberCallExpr" and y.get("cname") == field and len(y["c"]) == 1 and strip_this(y)) or
+                             (y["k"] == "MemberExpr" and y.get("isfield") and y.get("member") == field)]
+                    if reads and facts.cval(other) is None:
+                        bad = (op, l, r)
+            seen_k[(short, field)] = seen_k.get((short, field), 0) + 1
+            key = "%s:%s#%d" % (short, field, seen_k[(short, field)])
+            if bad:
+                rep.violation("R6-fresh-derived", key, facts.loc(f, x),
+                              "`%s` is only stored when `%s %s %s`: the serialised value depends on what the field held before (it can "
+                              "only grow or only shrink), so after the packet is edited the derived field goes stale"
+                              % (field, facts.expr_str(bad[1]), bad[0], facts.expr_str(bad[2])))
+            else:
+                rep.ok("R6-fresh-derived", key, facts.loc(f, x), "not guarded by an ordering test on its own old value")
+    if n < 40:
+        rep.analysis_broken("only %d derived-field stores found in serialisers" % n)
